@@ -126,6 +126,10 @@ func tcpSocket(proto, addr string, passive bool, sockOptInts []Option[int], sock
 		}
 		// Set backlog size to the maximum.
 		err = os.NewSyscallError("listen", unix.Listen(fd, listenerBacklogMaxSize))
+		if tcpAddr, ok := netAddr.(*net.TCPAddr); ok && err == nil && tcpAddr.Port == 0 {
+			// Bound to port 0: report the port that the kernel picked.
+			tcpAddr.Port = boundPort(fd)
+		}
 	} else {
 		err = os.NewSyscallError("connect", unix.Connect(fd, sa))
 	}
